@@ -46,6 +46,10 @@ def run (args : List String) : String :=
     match n.toInt? with
     | some n => match fromGo n with | some a => s!"ok {a}" | none => "err"
     | none => "bad-op"
+  | "before" :: n :: _ =>   -- translating an ASE level back after some sql level was translated: no history in a function
+    match n.toInt? with
+    | some n => joinSep "," ((toGo n).map toString)
+    | none => "bad-op"
   | "togo" :: n :: _ =>
     match n.toInt? with
     | some n => joinSep "," ((toGo n).map toString)
